@@ -1,6 +1,7 @@
 import CircBuf.Lemmas.Tie.PushPop
 import CircBuf.Lemmas.Tie.Remove
 import CircBuf.Lemmas.Tie.Swap
+import CircBuf.Lemmas.NonDefect
 import CircBuf.Props.C04
 /-!
 # C04 — behaviour is independent of the physical layout: the theorems of `Props/C04.lean`, restated about the *translated source*
@@ -20,7 +21,7 @@ theorem C04_push_back_src (x : Elem) (s1 s2 : Sys) (h1 : Inv s1.buf) (h2 : Inv s
       Gen.push_back x s2 = (.ok r, { s2 with buf := b2 }) ∧
       Inv b1 ∧ Inv b2 ∧ abs b1 = abs b2 ∧ b1.cap = b2.cap := by
   first
-  | (rw [tie_push_back _ s1 h1, tie_push_back _ s2 h2]; exact C04_push_back x s1 s2 h1 h2 hcap habs)
+  | (rw [tie_push_back _ s1 h1 (nd_pushBack _ s1 h1), tie_push_back _ s2 h2 (nd_pushBack _ s2 h2)]; exact C04_push_back x s1 s2 h1 h2 hcap habs)
 
 theorem C04_push_front_src (x : Elem) (s1 s2 : Sys) (h1 : Inv s1.buf) (h2 : Inv s2.buf)
     (hcap : s1.buf.cap = s2.buf.cap) (habs : abs s1.buf = abs s2.buf) :
@@ -28,21 +29,21 @@ theorem C04_push_front_src (x : Elem) (s1 s2 : Sys) (h1 : Inv s1.buf) (h2 : Inv 
       Gen.push_front x s2 = (.ok r, { s2 with buf := b2 }) ∧
       Inv b1 ∧ Inv b2 ∧ abs b1 = abs b2 ∧ b1.cap = b2.cap := by
   first
-  | (rw [tie_push_front _ s1 h1, tie_push_front _ s2 h2]; exact C04_push_front x s1 s2 h1 h2 hcap habs)
+  | (rw [tie_push_front _ s1 h1 (nd_pushFront _ s1 h1), tie_push_front _ s2 h2 (nd_pushFront _ s2 h2)]; exact C04_push_front x s1 s2 h1 h2 hcap habs)
 
 theorem C04_pop_back_src (s1 s2 : Sys) (h1 : Inv s1.buf) (h2 : Inv s2.buf)
     (hcap : s1.buf.cap = s2.buf.cap) (habs : abs s1.buf = abs s2.buf) :
     ∃ r b1 b2, Gen.pop_back s1 = (.ok r, { s1 with buf := b1 }) ∧ Gen.pop_back s2 = (.ok r, { s2 with buf := b2 }) ∧
       Inv b1 ∧ Inv b2 ∧ abs b1 = abs b2 ∧ b1.cap = b2.cap := by
   first
-  | (rw [tie_pop_back s1 h1, tie_pop_back s2 h2]; exact C04_pop_back s1 s2 h1 h2 hcap habs)
+  | (rw [tie_pop_back s1 h1 (nd_popBack s1 h1), tie_pop_back s2 h2 (nd_popBack s2 h2)]; exact C04_pop_back s1 s2 h1 h2 hcap habs)
 
 theorem C04_pop_front_src (s1 s2 : Sys) (h1 : Inv s1.buf) (h2 : Inv s2.buf)
     (hcap : s1.buf.cap = s2.buf.cap) (habs : abs s1.buf = abs s2.buf) :
     ∃ r b1 b2, Gen.pop_front s1 = (.ok r, { s1 with buf := b1 }) ∧ Gen.pop_front s2 = (.ok r, { s2 with buf := b2 }) ∧
       Inv b1 ∧ Inv b2 ∧ abs b1 = abs b2 ∧ b1.cap = b2.cap := by
   first
-  | (rw [tie_pop_front s1 h1, tie_pop_front s2 h2]; exact C04_pop_front s1 s2 h1 h2 hcap habs)
+  | (rw [tie_pop_front s1 h1 (nd_popFront s1 h1), tie_pop_front s2 h2 (nd_popFront s2 h2)]; exact C04_pop_front s1 s2 h1 h2 hcap habs)
 
 theorem C04_swap_remove_back_src (i : Nat) (s1 s2 : Sys) (h1 : Inv s1.buf) (h2 : Inv s2.buf)
     (hcap : s1.buf.cap = s2.buf.cap) (habs : abs s1.buf = abs s2.buf) :
@@ -50,13 +51,13 @@ theorem C04_swap_remove_back_src (i : Nat) (s1 s2 : Sys) (h1 : Inv s1.buf) (h2 :
       Gen.swap_remove_back i s2 = (.ok r, { s2 with buf := b2 }) ∧
       Inv b1 ∧ Inv b2 ∧ abs b1 = abs b2 ∧ b1.cap = b2.cap := by
   first
-  | (rw [tie_swap_remove_back _ s1 h1, tie_swap_remove_back _ s2 h2]; exact C04_swap_remove_back i s1 s2 h1 h2 hcap habs)
+  | (rw [tie_swap_remove_back _ s1 h1 (nd_swapRemoveBack _ s1 h1), tie_swap_remove_back _ s2 h2 (nd_swapRemoveBack _ s2 h2)]; exact C04_swap_remove_back i s1 s2 h1 h2 hcap habs)
 
 theorem C04_remove_src (i : Nat) (s1 s2 : Sys) (h1 : Inv s1.buf) (h2 : Inv s2.buf)
     (hcap : s1.buf.cap = s2.buf.cap) (habs : abs s1.buf = abs s2.buf) :
     ∃ r b1 b2, Gen.remove i s1 = (.ok r, { s1 with buf := b1 }) ∧ Gen.remove i s2 = (.ok r, { s2 with buf := b2 }) ∧
       Inv b1 ∧ Inv b2 ∧ abs b1 = abs b2 ∧ b1.cap = b2.cap := by
   first
-  | (rw [tie_remove _ s1 h1, tie_remove _ s2 h2]; exact C04_remove i s1 s2 h1 h2 hcap habs)
+  | (rw [tie_remove _ s1 h1 (nd_remove _ s1 h1), tie_remove _ s2 h2 (nd_remove _ s2 h2)]; exact C04_remove i s1 s2 h1 h2 hcap habs)
 
 end CircBuf
